@@ -195,9 +195,11 @@ Definition rate_guard (c : cfg) : bool := negb (c_lazy c) || (eff_bt c <=? eff_l
 (* One call of Reaper.SubmitTxs (reaper.go:72-129).  The environment's answers are inputs:
    [ri_get] = what exec.GetTxs returns (None = error), transactions named by ids (the code keys them by
    sha256 of their bytes, reaper.go:131); [ri_ok] = sequencer.SubmitBatchTxs accepts the batch (only
-   consulted when there is something new to hand over).  The seen-store (reaper.go:87, 117) is a
-   set of ids; its own I/O errors are not modelled.  The manager is connected (node/full.go:132). *)
-Record rin := { ri_get : option (list N); ri_ok : bool }.
+   consulted when there is something new to hand over); [ri_seen_ok] = the seen-store writes of this
+   call succeed (reaper.go:117-119: a failed write is logged and nothing else changes; all writes of
+   one call fail or succeed together here).  The seen-store (reaper.go:87, 117) is a set of ids; errors
+   of its reads (Has) are not modelled.  The manager is connected (node/full.go:132). *)
+Record rin := { ri_get : option (list N); ri_ok : bool; ri_seen_ok : bool }.
 
 (* what one call does: [ro_call] = the batch handed to the sequencer (None = SubmitBatchTxs is not
    called), [ro_acc] = the sequencer accepted it, [ro_notify] = Manager.NotifyNewTransactions is called *)
@@ -223,7 +225,7 @@ Definition rstep (seen : list N) (i : rin) : list N * rout :=
       let new := fresh seen txs in
       if nonempty new then
         if ri_ok i
-        then (new ++ seen,                                   (* reaper.go:114-120 *)
+        then ((if ri_seen_ok i then new ++ seen else seen),  (* reaper.go:114-120 *)
               {| ro_call := Some new; ro_acc := true;
                  ro_notify := nonempty new |})               (* reaper.go:123-126 *)
         else (seen, {| ro_call := Some new; ro_acc := false; ro_notify := false |})  (* 109-112 *)
